@@ -25,10 +25,11 @@ pub mod lib_std {
 
     pub mod thread {
         pub use ::std::thread::*;
-        pub use shuttle::thread::{
-            current, park, park_timeout, scope, sleep, spawn, yield_now, Builder, JoinHandle, LocalKey, Scope, ScopedJoinHandle, Thread,
-            ThreadId,
-        };
+        // the simulator's own scoped threads and builder (seams.rs: the engine's `scope` returns
+        // early when nested, its `Builder` has no `spawn_scoped`, its `JoinHandle` no
+        // `is_finished`); none of them needs a simulated world
+        pub use crate::seams::simthread::{scope, spawn, Builder, JoinHandle, Scope, ScopedJoinHandle};
+        pub use shuttle::thread::{current, park, park_timeout, sleep, yield_now, LocalKey, Thread, ThreadId};
     }
 
     pub mod sync {
